@@ -59,11 +59,14 @@ def main():
     ap.add_argument("--only")
     ap.add_argument("--list", action="store_true")
     ap.add_argument("--no-clean", action="store_true")
+    ap.add_argument("--last", type=int, help="only the last N mutants of the list")
     args = ap.parse_args()
     from .mutants import MUTANTS
 
     only = set(args.only.split(",")) if args.only else None
     muts = [m for m in MUTANTS if only is None or m[0] in only]
+    if args.last:
+        muts = muts[-args.last:]
     if args.list:
         for m in muts:
             print(m[0], m[1], m[5])
